@@ -22,6 +22,24 @@ pub fn run(ctx: &Ctx) -> PropReport {
     p.ticks = ctx.tier.pick((250, 1200), (2000, 5000));
     let rule = "C01's scenario space, both predictors; for every AdvanceFrame request (first simulations and resimulations) and every player: local => Confirmed and true value; Confirmed => frame <= newest received (session accessor AND network ledger) and true value; Predicted => frame > newest received, player connected, value == predictor(newest received true input) or default if none; Disconnected => player disconnected before that frame and default value; frames at or below confirmed_frame() keep their values in later resimulations; confirmed_frame() monotone; non-trivial = >=1 predicted input later corrected AND >=1 prediction reused for >=2 consecutive frames";
     rep.parts.push(run_random(ctx, "p2p", rule, || scenario(&p), ctx.tier.pick(6000, 24000), eval));
+    // the Disconnected clause needs drops: C07's two-peer deaths and explicit disconnect_player calls
+    // (rollback and lockstep, input delays, spectators), judged with C03's per-request clauses
+    let seed = ctx.seed;
+    let n = ctx.tier.pick(3000u64, 20000u64);
+    rep.part(|| run_enum(ctx, "drops",
+        "C07's two-peer drop scenarios (seeded sample of moment of death x lost tail, and explicit disconnect_player while the remote is ahead; rollback and lockstep): every request's statuses must satisfy the same clauses - Disconnected only for frames after the player's last received frame, with the default value; frames up to it Confirmed with the real input",
+        n, move |i| {
+            if i % 3 == 0 {
+                super::c07::api_case(i / 3, seed)
+            } else {
+                super::c07::death_case((i * 7919) % (super::c07::NBASE * 120), seed, 1, &[0, 2])
+            }
+        },
+        |sc| {
+            let (out, mut r) = eval_core(sc, PROPS, false);
+            r.nontrivial = out.peers.iter().any(|p| p.alive && p.cs.iter().any(|c| c.0));
+            r
+        }, false));
     rep.floors.push(("p2p".into(), 0.3));
     rep.assumptions = vec!["connection status (disconnected flag, last received frame) is read through the verif-hooks accessor right after each call; cross-checked against the network ledger".into()];
     rep
